@@ -16,6 +16,12 @@ CLAIMS = {
         "Trusts dill round-trips, atomic os.replace/rename, receiver types as wired in SamplerCore.__init__; decides code shape only.",
         "DESIGN.md section 3 (C08)",
     ),
+    "C17": (
+        "ownership/freshness abstract interpretation (escape analysis) of every public accessor and every store into internal state; who-may-mutate rule for history lists; CFG exactly-once rule for the commit",
+        "Static decision over all paths: every value returned by a public accessor of the state manager or facade is scalar or freshly allocated at every container level; every stored value is a fresh copy; history lists are only appended to, once per key per iteration, with a fresh copy.",
+        "Trusts numpy copy/view semantics as tabulated in sa/fresh.py; object-dtype blobs and the documented copy=False contract are outside.",
+        "DESIGN.md section 3 (C17)",
+    ),
 }
 
 NOT_APPLICABLE = {
